@@ -92,6 +92,7 @@ func Yield(maxPreempt int) {
 	c.cond.Broadcast()
 	c.mu.Unlock()
 	// wait until control comes back; if the other thread blocks on a mutex we hold, take it back
+	blockedPolls := 0
 	for {
 		c.mu.Lock()
 		if c.killed {
@@ -103,14 +104,27 @@ func Yield(maxPreempt int) {
 			return
 		}
 		c.mu.Unlock()
+		// The other thread counts as blocked on a mutex we hold only if it is seen parked in
+		// sync.Mutex.Lock on many consecutive polls: database/sql and the driver take short-lived
+		// mutexes of their own, and a single sighting of such a wait must not hand control back
+		// while that thread is in fact running.
 		if blockedOnMutex(c.gid[1-me]) {
+			blockedPolls++
+		} else {
+			blockedPolls = 0
+		}
+		if blockedPolls >= 100 {
 			c.mu.Lock()
-			if c.cur != me {
+			stillWaiting := c.cur != me && !c.done[1-me]
+			if stillWaiting {
 				c.cur = me
 				c.cond.Broadcast()
 			}
 			c.mu.Unlock()
-			return
+			if stillWaiting {
+				return
+			}
+			blockedPolls = 0
 		}
 		time.Sleep(200 * time.Microsecond)
 	}
